@@ -10,6 +10,51 @@ RULE = ("TLC decorates a fixed skeleton (root with two sub-trees, a sibling tree
 ASSUMPTIONS = ["inode numbers identify real entries", "10 s wall-clock bound stands for termination"]
 
 
+def mech(tier, seed):
+    # the walk with links (WalkerL): every world <= 3 nodes (thorough: 4) with <= 2 links, every root / window / mode / readdir order:
+    # termination, each real directory entered once, rows = World!Behind (following) / World!Listed (not)
+    return [dict(module="WalkerL", cfg="WalkerL_q" if tier == "quick" else "WalkerL_t", workers=8 if tier == "quick" else 12, actions=[], coverage=False),
+            # vacuity guard: a link back to the root is taken (and its activation refused) somewhere in the state space
+            dict(module="WalkerL", cfg="WalkerL_vac", workers=2, actions=[], coverage=False, expect_violation="NoLinkToRootTaken")]
+
+
+def _trace_conformance(ctx, tier, seed):
+    """White-box trace validation: real runs of the C18 scenarios (hooks on), with and without `symlinks`, are replayed
+    through the WalkerL actions by Trace_WalkerL (implementation -> specification)."""
+    import json
+    import os
+    import random
+    import time
+    from driver import lib, check
+    t0 = time.time()
+    r = lib.run_tlc("MC_C18", "MC_C18_t", workers=4)
+    lib.tlc_ok(r, "MC_C18")
+    scs = r.replays
+    random.Random(seed + 2).shuffle(scs)
+    if tier == "quick":
+        scs = scs[:400]
+    recs = []
+    for k, scn in enumerate(scs):
+        w, snap = ctx.world(scn["world"], None)
+        for run in scn["runs"]:
+            tf = os.path.join(ctx.scratch, "tracel.%d.%s" % (k, run["tag"]))
+            argv = [check.subst(a, w) for a in run["argv"]]
+            cwd = w.paths[scn["env"]["cwd"]]
+            lib.run_fselect(argv, cwd, w.home, extra_env={"FSELECT_VERIF_TRACE": tf}, timeout=10)
+            events = [json.loads(x) for x in open(tf)] if os.path.exists(tf) else []
+            recs.append({"id": len(recs) + 1, "world": scn["world"], "root": scn["root"], "dfs": " dfs " in run["argv"][0],
+                         "follow": run["tag"] == "follow", "snapshot": snap, "topino": str(os.stat(w.paths[0]).st_ino),
+                         "events": [{"ev": e["ev"], "ino": e.get("ino", ""), "reported": e.get("reported", False),
+                                     "descend": e.get("descend", "")} for e in events], "argv": argv})
+    res = lib.validate_traces(ctx, "Trace_WalkerL", recs, shards=8)
+    res.update({"name": "WalkerL", "wall_s": round(time.time() - t0, 1)})
+    return res
+
+
+def conformance(tier, seed):
+    return [dict(name="WalkerL", run=_trace_conformance)]
+
+
 def generators(tier, seed):
     return [dict(module="MC_C18", cfg="MC_C18_t", workers=4)]
 
